@@ -41,6 +41,10 @@ CLAIMED = {
         text="Lean theorems by kernel evaluation over the whole option lattice (128 combinations, lifted by lattice_complete): every combination yields a result, never an internal error or an abstract simulator (entry_total, entry_no_abstract_simulator); neither/both of Model and Interface is an explicit option error; every returnable result class stores the requested time points and the rows (entry_time_axis, result_rows_stored) - obligations regenerated from the constructors' source by a translator on every run; volume column iff a volume is in play; column list = species in index order ++ time ++ volume; dispatch table. Tie: the lattice x 5 models x 3 grids is enumerated completely on the real py_simulate_model and compared with the model outcome and with the property (rows, time axis, columns, first row).",
         note=NOTE_COMMON + "the dispatch is a hand model (exhaustively compared); result constructors are translated by regex (harness/extract/result_fields.py); pandas trusted; with a pre-built interface the data frame columns are positions.",
         technique="Lean 4 proof (decide +kernel over the complete finite lattice; translator-regenerated obligations) + exhaustive correspondence", ref="DESIGN.md §4 C07"),
+    "C08": dict(
+        text="Lean theorems (all histories / all streams): every edit clears `initialized`, only initialize sets it and it fails iff some parameter has no value; species and parameter indices are append-only (indices handed out earlier stay valid); set_parameter changes that parameter alone; a rule pass, one SSA iteration and a whole run write no parameter that is not the destination of a parameter-assigning rule (jump_run_params_frame), the loop works on a copy of the initial condition; mt_seed overwrites all 312 words and the index. Tie and end-to-end decision: random edit histories on the real Model vs the Lean state machine after every operation, then vs a freshly built model of the same definition by seeded simulation in five modes (bitwise by species name), repeatability, dictionaries before/after, interface reuse scenarios.",
+        note=NOTE_COMMON + "the statement 'same definition and seed => same output' itself is decided by the correspondence/oracle run (histories bounded by the generator), the Lean part proves the mechanisms it rests on; `initialized` is not Python-visible and is observed through interface refusal.",
+        technique="Lean 4 proof (state-machine invariants, parameter frame by induction over runs) + history correspondence", ref="DESIGN.md §4 C08"),
 }
 PENDING = {}
 def main():
@@ -67,7 +71,7 @@ def main():
     hook_commits = [l.split()[0] for l in hooks if " verif hooks" in l]
     m = {
         "version": 1,
-        "setup_cmd": "cd lean && lake build",
+        "setup_cmd": "PYTHONPATH=harness /venv/bin/python -c 'import extract, common; extract.regenerate_all(common.REPO, common.LEAN)' && cd lean && lake build",
         "hooks": {"guard": "BIOSCRAPE_VERIF", "enable": "hooks are compiled in always and inert unless BIOSCRAPE_VERIF=1 is in the environment (./check exports it); checks rebuild with `cd /repo && /venv/bin/python setup.py build_ext --inplace`",
                   "baseline_off_cmd": "cd /repo && /venv/bin/python setup.py build_ext --inplace -j 8 >/dev/null 2>&1; cd /repo && env -u BIOSCRAPE_VERIF /venv/bin/python -m pytest -ra -q -p no:cacheprovider --timeout=900 --continue-on-collection-errors",
                   "source_commits": hook_commits, "add_only": True},
